@@ -1,8 +1,8 @@
 from contracts.uijson import CONTRACTS as _U
 from contracts.validators import CONTRACTS as _V
 from contracts.enforcers import CONTRACTS as _E
-from contracts.frames import ValidateDataFrame, ValidateFrame
-CONTRACTS = list(_U) + list(_V) + list(_E) + [ValidateDataFrame, ValidateFrame]
+from contracts.frames import ValidateDataFrame, ValidateFrame, InputFileVerdictHistories
+CONTRACTS = list(_U) + list(_V) + list(_E) + [ValidateDataFrame, ValidateFrame, InputFileVerdictHistories]
 
 MANIFEST = {
     "category": "proof",
